@@ -38,17 +38,38 @@ PROP = {
 }
 
 TEXT = {
-    "text": "Theorems over all rationals/integers: plus/minus/times are the exact sum/difference/product whenever that is a float64 "
-            "(and its IEEE rounding in general); divided_by is truncated integer division of the truncated receiver for every integer "
-            "kind of divisor and real division for a float divisor; a zero divisor of divided_by or modulo is the error 'division by "
-            "zero' end to end through ApplyFilter/Call; modulo is a - b*trunc(a/b) with the sign of the dividend and |r| < |b|; abs; "
-            "ceil/floor return ints n with n <= x < n+1 / n-1 < x <= n; round is floor(x*10^p + 1/2)/10^p with error at most half a unit "
-            "of the last place; plus-then-minus and times-then-divided_by are the identity; a string receiver that spells a number "
-            "behaves as that number and any other string (receiver or operand) is a TypeError; a whole float below 10^21 is printed "
-            "as plain digits. An independent big.Rat oracle checks exactness, required errors and plain printing on the real code "
-            "for all universe pairs and random pipelines; the model is compared with the real code on every case.",
+    "text": "Theorems about the filter bodies on float64 arguments holding arbitrary rationals a, b (no bounds): plus/minus are the "
+            "exact sum/difference whenever that is a float64 (plus_spec, minus_spec) and its IEEE rounding otherwise (plus_rounds, "
+            "minus_rounds); times is the exact product whenever that is a float64 and not Go's -0 (times_spec; no rounding theorem "
+            "for times); divided_by with a non-zero integer divisor of any integer kind is the truncated quotient of the truncated "
+            "receiver when that truncation fits int64 (divided_by_int, with the wrap of MinInt64 / -1; divided_by_int_exact), with "
+            "a non-zero float divisor the exact quotient when that is a float64 and not -0 (divided_by_flt) or its non-zero IEEE "
+            "rounding (divided_by_flt_rounds); a zero divisor makes the body of divided_by (integer zero of any kind, or float zero) "
+            "and of modulo (float zero) return 'division by zero' for every receiver (divided_by_zero_err, modulo_zero_err), and "
+            "end to end through applyFilter an integer or float zero does so for a float receiver of either width "
+            "(divided_by_zero_filter, modulo_zero_filter; a numeric string receiver through numeric_string_recv; integer receivers "
+            "by the numf/filter streams only); modulo is a - b*trunc(a/b) "
+            "when that is a float64 and not -0 (modulo_spec), and that remainder has the sign of the dividend and |r| < |b| "
+            "(modulo_sign); abs (abs_spec); floor/ceil return Go ints n with n <= x < n+1 / n-1 < x <= n when n fits int64 "
+            "(floor_spec, ceil_spec); round: p for 0 <= p <= 22 (and without argument) returns floor(x*10^p + 1/2)/10^p whenever "
+            "x*10^p, x*10^p + 1/2 and that value are all exactly float64 (round_spec, round_default), and this ideal value is within "
+            "half a unit of the p-th place of x (round_err, about the ideal value, not about the filter) - for other p and inexact "
+            "intermediates only the step-wise rounded model is compared with the code; plus b then minus b, and times b then "
+            "divided_by float b (b != 0), give a back whenever a and the intermediate a+b / a*b are float64 (and not -0) (plus_minus, "
+            "times_div: each a pair of single-filter equations); for all nine filters a string receiver that spells a decimal number "
+            "behaves as the float64 nearest to it (numeric_string_recv, not for a spelling of -0) and a string receiver that does "
+            "not is a TypeError or, with too many arguments, the arity FilterError (non_numeric_err); a non-numeric string operand "
+            "of plus/minus/times/modulo with a float receiver is a TypeError (non_numeric_operand_err), while ANY non-number divisor "
+            "of divided_by - also the string \"3\" - is the FilterError 'invalid divisor' (divided_by_non_number); a whole float "
+            "below 10^21, whenever {{ x }} prints it, is printed as plain digits (whole_prints_int, whole_prints_no_point). An "
+            "independent big.Rat oracle checks exactness, required errors and plain printing on the real code for all universe pairs "
+            "and random pipelines wherever operands, intermediates and result are exactly float64 (round: 0 <= p <= 22 only; no "
+            "expectation otherwise); the model is compared with the real code on every case.",
     "design_ref": "DESIGN.md 6 C17",
-    "note": NOTE + "Defects found and repaired: modulo by zero printed NaN (D17), divided_by rejected uint/uint64 divisors (D14), whole "
+    "note": NOTE + "Every exactness theorem carries a Representable hypothesis (the exact result is a float64), the integer results an "
+            "int64-range hypothesis, and results Go signs -0 are excluded; round is characterised only for 0 <= p <= 22 with exact "
+            "intermediates; times has no general rounding theorem; the end-to-end zero-divisor theorems fix a float receiver. "
+            "Defects found and repaired: modulo by zero printed NaN (D17), divided_by rejected uint/uint64 divisors (D14), whole "
             "results from 10^6 on were printed in exponent form such as 1.234567e+06 (D23, fmt %v switches at exponent 6, not 21).",
     "technique": "Lean 4 proof (exact rational arithmetic with an explicit float64 rounding function) + model/implementation "
                  "correspondence + independent exact-arithmetic oracle on the implementation",
